@@ -651,8 +651,18 @@ var timeAtoms = []time.Duration{time.Second, -time.Second, 100 * time.Hour, 0, 1
 
 // maybeAttrs: def is the default variant (0 full, 1 nil, 2 empty, 3 odd); the explorer may pick any other.
 func maybeAttrs(x *explore.C, site string, def int) *astisub.StyleAttributes {
-	v := (x.Choose(site, 4) + def) % 4
+	v := (x.Choose(site, 5) + def) % 5
 	switch v {
+	case 4:
+		// every string empty, every number zero, every list holding one empty element: present but blank
+		e := func() *string { return astikit.StrPtr("") }
+		j := astisub.Justification(0)
+		return &astisub.StyleAttributes{SRTColor: e(), SSAFontName: "", SSAPrimaryColour: &astisub.Color{}, SSAFontSize: astikit.Float64Ptr(0), SSAAlignment: astikit.IntPtr(0),
+			STLJustification: &j, STLPosition: &astisub.STLPosition{}, TeletextColor: &astisub.Color{},
+			TTMLBackgroundColor: e(), TTMLColor: e(), TTMLDirection: e(), TTMLDisplay: e(), TTMLDisplayAlign: e(), TTMLExtent: e(), TTMLFontFamily: e(), TTMLFontSize: e(),
+			TTMLFontStyle: e(), TTMLFontWeight: e(), TTMLLineHeight: e(), TTMLOpacity: e(), TTMLOrigin: e(), TTMLOverflow: e(), TTMLPadding: e(), TTMLShowBackground: e(),
+			TTMLTextAlign: e(), TTMLTextDecoration: e(), TTMLTextOutline: e(), TTMLUnicodeBidi: e(), TTMLVisibility: e(), TTMLWrapOption: e(), TTMLWritingMode: e(), TTMLZIndex: astikit.IntPtr(0),
+			WebVTTStyles: []string{""}, WebVTTTags: []astisub.WebVTTTag{{Name: "", Classes: []string{""}}}}
 	case 2:
 		return &astisub.StyleAttributes{}
 	case 1:
